@@ -172,6 +172,28 @@ def _buffer_and_need(ctx, u, module):
     return None, None
 
 
+def _struct_fields(fmt):
+    """[(code, offset, width)] of the value-producing fields of a struct format with an explicit byte order, or None."""
+    import re
+    import struct
+
+    if not fmt or fmt[0] not in "<>=!":
+        return None
+    out, pos = [], 0
+    for cnt, code in re.findall(r"(\d*)([xcbB?hHiIlLqQnNefdspP])", fmt[1:]):
+        n = int(cnt) if cnt else 1
+        if code in "sp":
+            out.append((code, pos, n))
+            pos += n
+            continue
+        w = struct.calcsize(fmt[0] + code)
+        for _ in range(n):
+            if code != "x":
+                out.append((code, pos, w))
+            pos += w
+    return out if pos == struct.calcsize(fmt) else None
+
+
 @rule(P, "D12.3", "T-SPEC", floor=3)
 def d12_3(ctx):
     """Completion: loop continues iff len(data) < HEADER_SIZE + data_len, data_len = LE UINT at header offset 2, HEADER_SIZE = 24."""
@@ -185,7 +207,26 @@ def d12_3(ctx):
     # length variable
     length_field = [f for f in spec["fields"] if f["name"] == "length"][0]
     len_var, fmt_ok, facts = None, False, {}
+    # header unpacked into several names at once: `a, b = struct.unpack_from(fmt, buf[, off])` - the length is the field that
+    # starts at header offset 2
     for st in walk(fn):
+        if isinstance(st, ast.Assign) and len(st.targets) == 1 and isinstance(st.targets[0], ast.Tuple) and isinstance(st.value, ast.Call) and (call_name(st.value) or "").endswith("unpack_from") and len(st.value.args) >= 2:
+            c = st.value
+            fmt = ctx.folder.eval(c.args[0], cls.module)
+            off = ctx.folder.eval(c.args[2], cls.module) if len(c.args) > 2 else 0
+            flds = _struct_fields(fmt) if isinstance(fmt, str) else None
+            if flds is None or not isinstance(off, int) or len(flds) != len(st.targets[0].elts):
+                continue
+            hit = [(i, code) for i, (code, o, w) in enumerate(flds) if o + off == length_field["offset"]]
+            if hit and isinstance(st.targets[0].elts[hit[0][0]], ast.Name):
+                i, code = hit[0]
+                len_var = st.targets[0].elts[i].id
+                buf = atom_name(c.args[1])
+                facts = {"format": fmt, "offset": off, "field": i, "code": code}
+                fmt_ok = fmt[:1] in ("<", "=") and code == "H"
+    for st in walk(fn):
+        if len_var is not None:
+            break
         if isinstance(st, ast.Assign) and len(st.targets) == 1 and isinstance(st.targets[0], ast.Name):
             for c in walk(st.value):
                 if isinstance(c, ast.Call) and _reads_length(c):
